@@ -63,6 +63,14 @@ def cases(rng, tier):
         c = gen_mesh(rng, ("exact", "tol", "exact", "tol", "big")[k % 5])
         c["sub"] = rng.getrandbits(32)
         yield c
+    # constructor by cell size far from the origin (offsets of 1e9 ... 1e15 edge lengths): the tolerant containment
+    # test no longer notices a cell that is far larger than the edge there (finding D101)
+    for k in range(24 if tier == "quick" else 200):
+        nd = rng.choice([1, 1, 2, 3])
+        off = [rng.choice([-1, 1]) * float(2 ** rng.randint(30, 50)) for _ in range(nd)]
+        edge = [float(rng.choice([1, 2, 3, 4, 6])) for _ in range(nd)]
+        yield dict(regime="farcell", p1=off, p2=[o + e for o, e in zip(off, edge)], n=[1] * nd, dims=None,
+                   factors=[rng.choice([1000.0, 4096.0, 3.0, 1.5, 1.0, 0.5, 1e6]) for _ in range(nd)], sub=rng.getrandbits(32))
     # malformed stream
     yield dict(regime="exact", p1=[0.0, 0.0], p2=[1.0, 0.0], n=[1, 1], dims=None, sub=1)   # zero edge
     yield dict(regime="exact", p1=[0.0, 0.0], p2=[1.0, 1.0], n=[1, 0], dims=None, sub=2)   # zero count
@@ -124,7 +132,29 @@ def probe_points(m, rng, regime):
     return pts
 
 
+def run_farcell(case):
+    obs = {"oracle": [], "tags": ["regime:farcell", f"ndim:{len(case['p1'])}"]}
+    r = df.Region(p1=case["p1"], p2=case["p2"])
+    obs["region_state"] = dict(pmin=Qs(r.pmin), pmax=Qs(r.pmax), dims=list(r.dims), units=list(r.units))
+    c = [float(e) * f for e, f in zip(r.edges, case["factors"])]
+    st, mm = _err(lambda: df.Mesh(region=r, cell=c))
+    obs["far"] = dict(cell=Qs(c), st=st, n=([int(k) for k in mm.n] if st == "ok" else None))
+    obs["tags"].append("farcell:" + st)
+    if st == "ok":
+        n = np.asarray(mm.n)
+        if not (n >= 1).all() or not np.all(np.isfinite(mm.cell)):
+            obs["oracle"].append(f"Mesh(cell={c}) on edges {r.edges.tolist()} at offset {case['p1']} accepted with n={n.tolist()}, "
+                                 f"cell={mm.cell.tolist()}")
+        elif any(f > 1.001 for f in case["factors"]):
+            obs["oracle"].append(f"cell {c} larger than the edges {r.edges.tolist()} accepted (n={n.tolist()})")
+    elif all(f == 1.0 or f == 0.5 for f in case["factors"]):
+        obs["oracle"].append(f"mesh by commensurate cell {c} on edges {r.edges.tolist()} refused at offset {case['p1']}")
+    return obs
+
+
 def run_impl(case):
+    if case["regime"] == "farcell":
+        return run_farcell(case)
     rng = __import__("random").Random(case["sub"])
     obs = {"oracle": [], "tags": [f"regime:{case['regime']}", f"ndim:{len(case['p1'])}"]}
     kw = {} if case["dims"] is None else {"dims": case["dims"]}
@@ -256,6 +286,8 @@ def run_impl(case):
 
 
 def model_requests(case, obs):
+    if case["regime"] == "farcell":
+        return [dict(op="mesh_mk_cell", region=dict(obs["region_state"], tol=Q(1e-12)), cell=obs["far"]["cell"])]
     reqs = [dict(op="region_mk", p1=Qs(case["p1"]), p2=Qs(case["p2"]), dims=case["dims"])]
     if obs.get("region") != "ok":
         return reqs
@@ -293,6 +325,13 @@ def _cmp_list(name, impl, model, exact, dis, scale=0.0):
 
 def compare(case, obs, rs):
     dis = []
+    if case["regime"] == "farcell":
+        r, b = rs[0], obs["far"]
+        if ("ok" in r) != (b["st"] == "ok"):
+            dis.append(f"Mesh(cell={b['cell']}) far from the origin: impl {b['st']} vs model {r}")
+        elif "ok" in r and r["ok"]["n"] != b["n"]:
+            dis.append(f"Mesh(cell=...) far from the origin: n impl {b['n']} vs model {r['ok']['n']}")
+        return dis
     exact = case["regime"] in ("exact", "big")
     it = iter(rs)
     r = next(it)
@@ -388,6 +427,8 @@ def compare(case, obs, rs):
 
 
 def nontrivial(case, obs):
+    if case["regime"] == "farcell":
+        return True
     return obs.get("mesh") == "ok" and obs.get("len", 0) >= 2
 
 
